@@ -97,6 +97,7 @@ func c20Step(st c20State, in c20In, max int, interval int64, wl func(string) boo
 
 type c20Scenario struct {
 	name     string
+	blocks   string // white-listed blocks ("" = 10.0.0.0/8)
 	max      int
 	clients  [][]string // per thread: list of IP specs ("ip" or "xff:ip")
 	reader   string     // ip to read, "" = none
@@ -135,13 +136,18 @@ func TestVerifC20(t *testing.T) {
 	rep := vh.NewReport("C20")
 	defer rep.Write()
 	// white list 10.0.0.0/8; an IPv4-mapped IPv6 address is the IPv4 address it carries
-	wl := func(ip string) bool {
+	wlBlocks := "10.0.0.0/8"
+	wl := func(ip string) bool { // membership by the definition of a CIDR block, block by block
 		p := net.ParseIP(ip)
 		if p == nil {
 			return false
 		}
-		v4 := p.To4()
-		return v4 != nil && v4[0] == 10
+		for _, b := range strings.Split(wlBlocks, ",") {
+			if _, n, err := net.ParseCIDR(b); err == nil && n.Contains(p) {
+				return true
+			}
+		}
+		return false
 	}
 	scenarios := []c20Scenario{
 		{name: "3x1-same-ip", max: 2, clients: [][]string{{"1.2.3.4"}, {"1.2.3.4"}, {"1.2.3.4"}}, reader: "1.2.3.4"},
@@ -151,6 +157,9 @@ func TestVerifC20(t *testing.T) {
 		{name: "after-boundary", max: 1, clients: [][]string{{"1.2.3.4"}, {"1.2.3.4"}, {"5.6.7.8"}}, reader: "5.6.7.8", startOff: c20Interval + 1},
 		{name: "mapped-addresses", max: 1, clients: [][]string{{"xff:::ffff:10.2.3.4", "xff:::ffff:10.2.3.4", "xff:::ffff:10.2.3.4"}, {"xff:::ffff:1.2.3.4", "xff:::ffff:1.2.3.4"}, {"xff:10.2.3.4", "1.2.3.4"}}, reader: "xff:::ffff:1.2.3.4"},
 		{name: "two-spellings", max: 1, clients: [][]string{{"xff:2001:db8::1", "xff:2001:DB8:0:0:0:0:0:1"}, {"2001:db8::1"}, {"xff:2001:0db8::0001"}}, reader: "xff:2001:db8:0::1"},
+		// blocks that overlap: narrow before wide with the same base address, wide before narrow, IPv6, a host route
+		{name: "nested-blocks", blocks: "192.168.0.0/24,192.168.0.0/16,2001:db8::/64,2001:db8::/32,172.16.5.5/32", max: 1, clients: [][]string{{"192.168.7.7", "192.168.7.7"}, {"xff:2001:db8:1::5", "xff:2001:db8:1::5"}, {"172.16.5.5", "172.16.5.6", "172.16.5.6"}}, reader: "192.168.7.7"},
+		{name: "nested-blocks-wide-first", blocks: "10.0.0.0/8,10.1.0.0/16,10.1.1.0/24", max: 1, clients: [][]string{{"10.1.1.1", "10.1.1.1"}, {"10.200.0.1"}, {"11.0.0.1", "11.0.0.1"}}, reader: "11.0.0.1"},
 		{name: "after-boundary-logfile", max: 3, clients: [][]string{{"1.2.3.4", "1.2.3.4"}, {"1.2.3.4"}, {"5.6.7.8"}}, reader: "1.2.3.4", startOff: c20Interval + 1, logFile: true},
 		{name: "boundary-tick-logfile", max: 2, clients: [][]string{{"1.2.3.4", "1.2.3.4"}, {"1.2.3.4"}}, reader: "1.2.3.4", tickTo: c20Interval + 1, startOff: c20Interval, logFile: true},
 	}
@@ -167,6 +176,10 @@ func TestVerifC20(t *testing.T) {
 	rep.Bound = bound
 	for si, sc := range scenarios {
 		sc := sc
+		wlBlocks = "10.0.0.0/8"
+		if sc.blocks != "" {
+			wlBlocks = sc.blocks
+		}
 		type opRec struct {
 			in       c20In
 			out      c20Out
@@ -183,7 +196,7 @@ func TestVerifC20(t *testing.T) {
 			if sc.logFile {
 				logFile = filepath.Join(logDir, "limiter.json")
 			}
-			lim, err := NewIPRequestLimiter(sc.max, time.Duration(c20Interval), time.Unix(0, c20T0).UTC(), "10.0.0.0/8", logFile)
+			lim, err := NewIPRequestLimiter(sc.max, time.Duration(c20Interval), time.Unix(0, c20T0).UTC(), wlBlocks, logFile)
 			if err != nil {
 				s.Fail("setup", err.Error())
 				return
@@ -373,6 +386,7 @@ func TestVerifC20(t *testing.T) {
 		}
 	}
 
+	wlBlocks = "10.0.0.0/8"
 	// ---- Part B: sequences around the interval boundary (shard 0 only; it is cheap)
 	depth := 5
 	if !vh.Quick() {
